@@ -164,6 +164,8 @@ type ctx struct {
 	evals  int64
 	encOut *cencgen.EncOut
 	det    func() map[string]interface{} // multi-track cases: witness description instead of the single-track one
+	rotate int                           // key rotation period in fragments (0 = one key)
+	shape  []string                      // byte-level rewrites applied to the clear input
 }
 
 func (x *ctx) viol(clause, what string) {
@@ -173,7 +175,11 @@ func (x *ctx) viol(clause, what string) {
 	}
 	det := map[string]interface{}{
 		"case": x.cs.Name, "codec": x.cs.Codec, "traits": x.cs.Traits, "encrypt_path": x.enc, "decrypt_path": x.dec,
-		"scheme": x.cfg.Scheme, "key": x.cfg.KeyHex(), "iv": x.cfg.IVHex(), "kid": x.cfg.KIDHex(), "pssh": x.cfg.Pssh,
+		"scheme": x.cfg.Scheme, "key": x.cfg.KeyHex(), "iv": x.cfg.IVHex(), "kid": x.cfg.KIDHex(), "pssh": x.cfg.Pssh, "pssh_boxes_to_initprotect": x.cfg.NPssh(),
+		"clear_moov_children": cencgen.MoovLayout(x.cs.Init), "clear_input_rewrites": x.shape,
+	}
+	if x.rotate > 0 {
+		det["key_rotation"] = fmt.Sprintf("fragment g (0-based, file order) is encrypted and decrypted with key number g/%d: key 0 = the case key, key k = SHA-256(case key || \"rot\" || uint32 k)[:16]; one DecryptInfo for the whole file", x.rotate)
 	}
 	var extras []string
 	for _, f := range x.cs.Frags {
@@ -234,7 +240,20 @@ func run(c *runner.Ctx, idx int) {
 	for _, t := range cs.Traits {
 		c.Seen("input_trait", t)
 	}
-	x := &ctx{c: c, cs: cs, cfg: cfg, pre: cfg.Scheme + "/" + fam(cs.Codec)}
+	// ---- shapes of the clear input that the library's own writer never produces (byte-level rewrites;
+	// the generator's sample list stays the ground truth and is re-read from the rewritten bytes first) ----
+	var shape []string
+	if it.Kind == "random" {
+		var ok bool
+		if cs, shape, ok = reshapeClear(c, cs, 3, 2); !ok {
+			return
+		}
+	}
+	if cfg.Pssh && c.Rand.Bool() {
+		cfg.PsshN = 2
+	}
+	c.Seen("pssh_boxes_to_initprotect", fmt.Sprint(cfg.NPssh()))
+	x := &ctx{c: c, cs: cs, cfg: cfg, pre: cfg.Scheme + "/" + fam(cs.Codec), shape: shape}
 	tools := &cencgen.Tools{BinDir: c.Env.BinDir + "/tools", Scratch: c.Env.Scratch}
 	haveTools := tools.Available()
 	if !haveTools {
@@ -248,6 +267,14 @@ func run(c *runner.Ctx, idx int) {
 	decTool := haveTools && c.Rand.Chance(1, 5)
 	eopt := cencgen.LibOpt{SliceReader: c.Rand.Bool(), Separate: separate, Extract: separate && c.Rand.Bool()}
 	dopt := cencgen.LibOpt{SliceReader: c.Rand.Bool(), Separate: separate, BoxTree: c.Rand.Bool()}
+	// key rotation (library on both sides only: the tools take one key): fragment g is encrypted and decrypted
+	// with key number g/period, the decryption side uses ONE DecryptInfo for all of them
+	var encRot, decRot cencgen.RotStats
+	if !encTool && !decTool && it.Kind != "iv-guess" && len(cs.Frags) >= 2 && c.Rand.Chance(1, 3) {
+		x.rotate = c.Rand.PickInt(1, 1, 2)
+		eopt.RotateKeys, eopt.Rot = x.rotate, &encRot
+		dopt.RotateKeys, dopt.Rot = x.rotate, &decRot
+	}
 
 	// ---- encrypt ----
 	var enc *cencgen.EncOut
@@ -258,7 +285,7 @@ func run(c *runner.Ctx, idx int) {
 		}
 		enc, err = tools.Encrypt(cs, cfg, separate)
 	} else {
-		x.enc = "lib/" + cencgen.LibOpt{SliceReader: eopt.SliceReader, Separate: eopt.Separate, Extract: eopt.Extract}.String()
+		x.enc = "lib/" + eopt.String()
 		if pi := c.Guard(func() { enc, err = cencgen.EncryptLib(cs, cfg, eopt) }); pi != nil {
 			x.viol("encrypt-panic/"+pi.TopFrame+"/"+pi.Class, "panic while encrypting: "+pi.Value+"\n"+firstLines(pi.Stack, 14))
 			return
@@ -284,6 +311,11 @@ func run(c *runner.Ctx, idx int) {
 	}
 	x.encOut = enc
 	protected := x.hasProtectedRange(enc)
+	if separate {
+		c.Seen("encrypted_moov_pssh_layout", cencgen.PsshNeighbourhood(enc.Init))
+	} else {
+		c.Seen("encrypted_moov_pssh_layout", cencgen.PsshNeighbourhood(enc.Media))
+	}
 
 	// ---- decrypt ----
 	var decInit, decMedia []byte
@@ -372,6 +404,7 @@ func run(c *runner.Ctx, idx int) {
 		return
 	}
 	c.Count("round_trips", 1)
+	countRotation(c, "", x.rotate, &encRot, &decRot)
 	x.compare(baseInit, baseMedia, decInit, decMedia, separate, decTool)
 	c.Evals(x.evals)
 	if protected {
@@ -383,6 +416,73 @@ func run(c *runner.Ctx, idx int) {
 	} else {
 		c.Count("round_trips_without_protected_range", 1)
 	}
+}
+
+// reshapeClear applies, with chance 1/extrasDen and 1/trexDen, the two byte-level rewrites of a clear
+// single-track input (gen/cencgen/clearshapes.go) and re-reads the result with the reference readers:
+// a rewritten input that does not carry the generated samples is inconclusive (generator), never a verdict.
+func reshapeClear(c *runner.Ctx, cs *cencgen.Case, extrasDen, trexDen int) (*cencgen.Case, []string, bool) {
+	var shape []string
+	changed := false
+	if c.Rand.Chance(1, extrasDen) {
+		d, names, err := cencgen.AddMoovExtras(c.Rand, cs)
+		if err != nil {
+			c.Inconclusive("generator: moov extras: " + errClass(err))
+			return nil, nil, false
+		}
+		cs, changed = d, true
+		c.Count("clear_inputs_with_moov_extras", 1)
+		for _, n := range names {
+			c.Seen("clear_moov_extra", n)
+			shape = append(shape, "moov:"+n)
+		}
+	}
+	if c.Rand.Chance(1, trexDen) {
+		hoist := c.Rand.Bool()
+		d, moved, err := cencgen.TrexOnlyDefaults(cs, hoist)
+		if err != nil {
+			c.Inconclusive("generator: trex-only defaults: " + errClass(err))
+			return nil, nil, false
+		}
+		if d == nil {
+			c.Seen("clear_trex_only_default", "nothing-to-move")
+		} else {
+			cs, changed = d, true
+			c.Count("clear_inputs_with_defaults_moved_to_trex", 1)
+			for _, m := range moved {
+				c.Seen("clear_trex_only_default", m)
+				shape = append(shape, "trex:"+m)
+			}
+		}
+	}
+	if changed {
+		if err := cencgen.VerifyClear(cs); err != nil {
+			c.Inconclusive("generator: rewritten clear input does not carry the generated samples (" + errClass(err) + ")")
+			return nil, nil, false
+		}
+	}
+	c.Seen("clear_moov_pssh_layout", cencgen.PsshNeighbourhood(cs.Init))
+	if cencgen.SizeSignalledByTrexOnly(cs) {
+		c.Count("clear_inputs_with_sample_size_from_trex_only", 1)
+	}
+	return cs, shape, true
+}
+
+// countRotation records what a rotating round trip did.
+func countRotation(c *runner.Ctx, pre string, period int, enc, dec *cencgen.RotStats) {
+	if period == 0 {
+		c.Seen(pre+"key_rotation", "none")
+		return
+	}
+	c.Seen(pre+"key_rotation", fmt.Sprintf("period=%d/keys=%d", period, dec.Keys))
+	c.Count(pre+"key_rotation_round_trips", 1)
+	if dec.Switches > 0 {
+		c.Count(pre+"key_rotation_round_trips_with_key_change_on_one_decryptinfo", 1)
+	}
+	c.Count(pre+"key_rotation_key_changes_on_one_decryptinfo", int64(dec.Switches))
+	c.Count(pre+"key_rotation_decryptsegment_calls", int64(dec.SegmentCalls))
+	c.Count(pre+"key_rotation_decryptfragment_calls", int64(dec.FragmentCalls))
+	_ = enc
 }
 
 func isToolError(err error) bool {
